@@ -182,7 +182,23 @@ def case_random_block(case):
                     stats["cross_dim_raised"] += 1
             # arrays
             vals = [r.uniform(-5, 5) * 10 ** r.randint(-3, 3) for _ in range(r.randint(1, 4))]
-            arr = U.UnitArray(vals, U.Units(mk_sys(U, A), mk_dim(U, d3)))
+            # the numbers come in any of the containers / item types the documentation calls "array" (a narrower float or an
+            # integer type holds exactly the numbers it holds: the conversion must be that of those numbers in double precision)
+            cont = r.choice(["list", "list", "tuple", "float64", "float32", "float16", "int64", "int32", "list of numpy scalars"])
+            raw = list(vals)
+            if cont == "tuple":
+                raw = tuple(vals)
+            elif cont in ("float64", "float32", "float16"):
+                raw = np.array(vals, dtype=getattr(np, cont))
+                vals = [float(x) for x in raw]
+            elif cont in ("int64", "int32"):
+                raw = np.array([r.randint(-5000, 5000) for _ in vals], dtype=getattr(np, cont))
+                vals = [float(x) for x in raw]
+            elif cont == "list of numpy scalars":
+                raw = [np.float32(x) if r.random() < 0.5 else np.float64(x) for x in vals]
+                vals = [float(x) for x in raw]
+            stats["array_container:" + cont] = stats.get("array_container:" + cont, 0) + 1
+            arr = U.UnitArray(raw, U.Units(mk_sys(U, A), mk_dim(U, d3)))
             for fname, tgt in target_forms(U, B, d3, r).items():
                 ca = arr.convert(tgt)
                 stats["array_conversions"] += 1
@@ -192,7 +208,7 @@ def case_random_block(case):
                 for x, y in zip(vals, ca.value):
                     if not close(float(y), Fr(x) * si.factor(A, rs, d3)):
                         bad.append({"what": "array value", "form": fname, "A": A, "B": rs, "dim": d3, "x": x,
-                                    "got": float(y)})
+                                    "got": float(y), "container": cont})
                         break
             for fname, tgt in target_forms(U, B, d_other, r).items():
                 if fname in ("UnitsSystem", "dict"):
